@@ -1,6 +1,6 @@
 (** Tie of the hand-written handler family to the source text: the expect() call graph that
     gen/formats.py reads from rfb.py must be the one Model/Rfb.v implements. *)
-From Coq Require Import List String.
+From Coq Require Import List String Bool.
 From VD Require Import Gen.Formats.
 Import ListNotations.
 Open Scope string_scope.
@@ -52,5 +52,14 @@ Definition model_expect_graph : list (string * string) := [
   ("rfb_RFBClient_handleServerCutTextValue", "_handleConnection")
 ].
 
-Example expect_graph_is_the_models : EXPECT_GRAPH = model_expect_graph.
-Proof. reflexivity. Qed.
+(* the graph is a SET of edges: the order in which the source mentions them (branch order inside a handler, method
+   order in the class) is not part of the tie *)
+Definition edge_eqb (a b : string * string) : bool :=
+  (if string_dec (fst a) (fst b) then true else false) && (if string_dec (snd a) (snd b) then true else false).
+
+Definition edges_incl (a b : list (string * string)) : bool :=
+  forallb (fun e => existsb (edge_eqb e) b) a.
+
+Example expect_graph_is_the_models :
+  edges_incl EXPECT_GRAPH model_expect_graph = true /\ edges_incl model_expect_graph EXPECT_GRAPH = true.
+Proof. split; vm_compute; reflexivity. Qed.
